@@ -41,6 +41,7 @@ class Gen:
         self.stmts = []
         self.views_used = []
         self.targets = set()
+        self.force = {}         # directed cases (sweep_cases): forced parameters of a statement family
         self.meta = []          # per statement: (kind, rank, dims)
         self.pref_dep = []      # views to be used as dependents / independents of the case's Jacobian (s_packed)
         self.pref_indep = []
@@ -508,12 +509,17 @@ class Gen:
     def s_products(self):
         r = self.r
         k = r.choice(["outer", "spr", "spr", "spre"])
+        if self.force.get("spr"):
+            k = self.force["spr"][0]
         if k == "outer":
             n, m = self.ext(), self.ext(); t = self.target([n, m])
             self.emit("outer %d %d %d" % (t, self.operand([n]), self.operand([m], True)), "outer_product", [n, m], t)
             return
         rank = r.choice([1, 1, 2]) if k == "spr" else 1
         d = self.dims(rank, 40); sd = r.randint(0, rank); n = r.choice([1, 2, 3, 4, 5])
+        if self.force.get("spr"):
+            k, rank, sd = self.force["spr"]
+            d = r.sample([2, 3, 4, 5], rank); n = r.choice([2, 3])      # pairwise different extents > 1: a wrong coordinate cannot cancel
         td = d[:sd] + [n] + d[sd:]
         t = self.target(td); a = self.operand(d, True if r.random() < 0.8 else False)
         if k == "spr":
@@ -630,6 +636,20 @@ def gen_case(rng, mix="default"):
     g = Gen(rng, mix)
     ops = g.case(rng.choice([1, 2, 2, 3, 3, 4]))
     return ops, g
+
+
+def sweep_cases(rng):
+    """directed cases run in every tier: parameter combinations that the weighted random choice reaches too rarely to rely on —
+    spread<d>(A, n) for every rank of A and every position d of the new dimension (plain and inside an expression)"""
+    out = []
+    for k, rank in (("spr", 1), ("spr", 2), ("spre", 1)):
+        for sd in range(rank + 1):
+            g = Gen(rng, "default")
+            g.force["spr"] = (k, rank, sd)
+            g.s_products()
+            g.force.clear()
+            out.append((g.case(0), g))
+    return out
 
 
 # ------------------------------------------------------------------ judging one case
@@ -852,7 +872,7 @@ def run(ctx, replay):
             print("REPLAY-FAIL:", f[0], "op", f[2], f[3][:600])
             ctx.violation("replayed case fails: " + f[3][:300], {"kind": f[0], "ops": ops, "message": f[3], "signature": signature(ops, f[3])})
         return
-    nstmt_target = 300 if ctx.tier == "quick" else 5000
+    nstmt_target = 1500 if ctx.tier == "quick" else 6000
     dist = {"statement_kinds": {}, "ranks": {}, "view_kinds": {}, "extents": {}, "regime": {"exact": 0, "float": 0}}
     pending_model = []
     nviol = 0
@@ -861,6 +881,7 @@ def run(ctx, replay):
         cases = []
         if vi == 0:
             cases += [(ops, "corpus:" + name) for ops, name in load_corpus()]
+        cases += sweep_cases(ctx.rng)
         n = 0
         target = nstmt_target if vi == 0 else nstmt_target // 2
         mixes = [("default", target)] if ctx.tier == "quick" else [("default", target - target // 4), ("fixed-indexed", target // 4)]
